@@ -502,7 +502,14 @@ def record(ctx, tier, drv, tables):
 
 
 # ---------------------------------------------------------------------------------------------- the part
-def run_part(ctx):
+def build_drivers(ctx):
+    """The harness binaries (and, through them, the library variants).  Called from the main thread BEFORE the GF(p) part
+    and this part run concurrently: vlib.build is not safe against two threads building the same variant."""
+    builds = list(BUILDS) if not ctx.quick else ["asan", "asan-w32"]
+    return {b: vlib.harness("drv_ec2", ["drv_ec2.c"], BUILDS[b]) for b in builds}
+
+
+def run_part(ctx, drvs=None):
     """Returns (states, transitions, validated) and fills ctx.ev.cov["ec2_*"]."""
     ev = ctx.ev
     tier = "quick" if ctx.quick else "thorough"
@@ -510,7 +517,7 @@ def run_part(ctx):
     states = trans = 0
     curves = QUICK2 if ctx.quick else THOROUGH2
     builds = list(BUILDS) if not ctx.quick else ["asan", "asan-w32"]
-    drvs = {b: vlib.harness("drv_ec2", ["drv_ec2.c"], BUILDS[b]) for b in builds}
+    drvs = drvs or build_drivers(ctx)
     # everything runs concurrently: (0) the oracle validation, the tables of every curve, and - as soon as the tables of a
     # curve exist - the harness runs of that curve; the record lines need the tables of two curves.  Mismatches are judged
     # only after the oracle has been validated (a failing oracle makes the run inconclusive).
